@@ -109,11 +109,22 @@ def rule_commands(rep: Report, repo: Repo) -> None:
               'count parsed from the argument; non-positive counts re-prompt', f'{BRK}:{q.lineno}')
     rep.check("if line is None:\n            return ('exit', 0)" in txt.replace('    ' * 3, '        ').replace('                ', '            ') or
               ("line is None" in txt and "return ('exit', 0)" in txt), 'C15.COMMANDS', 'eof-is-exit', 'EOF on the prompt quits', f'{BRK}:{q.lineno}')
-    hb = repo.func(BRK, 'handle_breakpoint')
-    body = norm(hb)
-    ok = 'breakpoint_handler.apply_debug_action(action, statistics.op_counter)' in body and 'except BreakpointHandlerUnnecessary:\n        return None' in body \
-        and 'query_user_for_debug_action(ip, mem, statistics.op_counter)' in body
-    rep.check(ok, 'C15.COMMANDS', 'handle_breakpoint', 'applies the action with the completed-op count; continue-all returns None', f'{BRK}:{hb.lineno}')
+    hb = inline_pure_temps(repo.func(BRK, 'handle_breakpoint'))
+    ap = [c for c in calls(hb) if dotted(c.func) == 'breakpoint_handler.apply_debug_action']
+    qu = [c for c in calls(hb) if dotted(c.func) == 'breakpoint_handler.query_user_for_debug_action']
+    counts_ok = len(ap) == 1 and len(qu) == 1 and len(ap[0].args) == 2 and norm(ap[0].args[1]) == 'statistics.op_counter' \
+        and len(qu[0].args) == 3 and norm(qu[0].args[2]) == 'statistics.op_counter'
+    # continue-all: the handler that catches BreakpointHandlerUnnecessary around the apply call returns None; every other return
+    # hands the handler back
+    retire_ok = False
+    for t_ in [n for n in ast.walk(hb) if isinstance(n, ast.Try)]:
+        if ap and any(c is ap[0] for st in t_.body for c in ast.walk(st)):
+            hs = [h for h in t_.handlers if 'BreakpointHandlerUnnecessary' in handler_types(h)]
+            retire_ok = len(hs) == 1 and len(hs[0].body) == 1 and isinstance(hs[0].body[0], ast.Return) and norm(hs[0].body[0].value) == 'None'
+    other = [norm(r.value) for r in ast.walk(hb) if isinstance(r, ast.Return) and norm(r.value) != 'None']
+    ok = counts_ok and retire_ok and other == ['breakpoint_handler']
+    rep.check(ok, 'C15.COMMANDS', 'handle_breakpoint', 'applies the action with the completed-op count; continue-all returns None' if ok else
+              f'op-count arguments ok={counts_ok}, retire handler ok={retire_ok}, other returns {other}', f'{BRK}:{hb.lineno}')
 
 
 def debugger_closure(repo: Repo) -> List[Tuple[str, str, ast.FunctionDef]]:
@@ -252,10 +263,39 @@ def rule_decode(rep: Report, repo: Repo) -> None:
     ret = [norm(r.value) for r in ast.walk(off) if isinstance(r, ast.Return)]
     rep.check(ret == ['self.memory_width.bit_length()'], 'C15.DECODE', 'same-offset-as-device', str(ret), f'{DM}:{off.lineno}',
               expected='#w = w.bit_length() in both')
+    # f/j prefixes: on every path that consumes the prefix the returned address is address + w * (2*len*index [+1 for j]);
+    # decided per type letter on the partially evaluated function (forward substitution, folded on a grid)
+    from ..pyfacts import specialize
+    from ..pysubst import block_outcomes
     fj = repo.func(BRK, 'handle_read_f_j')
-    t = norm(fj)
-    rep.check('added_w = 2 * variable_length * index' in t and "if variable_type == 'j':\n            added_w += 1" in t and 'address += w * added_w' in t,
-              'C15.DECODE', 'f/j', 'word offset 2*len*index (+1 for the jump word)', f'{BRK}:{fj.lineno}')
+    fj_wrong: List[str] = []
+    n_paths = 0
+    for vt in ('f', 'j'):
+        for o in block_outcomes(specialize(fj, {'variable_type': vt}).body, label='handle_read_f_j'):
+            if o.result[0] != 'return' or o.result[1] is None:
+                fj_wrong.append(f'{vt}: a path ends with {o.result[0]}')
+                continue
+            tup = ast.parse(o.result[1], mode='eval').body
+            if not (isinstance(tup, ast.Tuple) and len(tup.elts) == 3):
+                fj_wrong.append(f'{vt}: returns {o.result[1][:60]}')
+                continue
+            consumed = norm(tup.elts[0]) == 'None'
+            n_paths += 1
+            for wv in (8, 16, 64):
+                for addr in (0, 5 * wv):
+                    for ln in (1, 3):
+                        for idx in (0, 2):
+                            env = {'address': addr, 'w': wv, 'variable_length': ln, 'index': idx}
+                            try:
+                                got = eval_int_expr(tup.elts[1], env)
+                            except AnalysisError as ex:
+                                fj_wrong.append(f'{vt}: address expression not foldable: {ex}')
+                                break
+                            want = addr + wv * (2 * ln * idx + (1 if vt == 'j' else 0)) if consumed else addr
+                            if got != want:
+                                fj_wrong.append(f'{vt}: w={wv} address={addr} len={ln} index={idx}: {got} vs {want}')
+    rep.check(not fj_wrong and n_paths >= 4, 'C15.DECODE', 'f/j', fj_wrong[0] if fj_wrong else
+              f'word offset 2*len*index (+1 for the jump word) on {n_paths} paths x 24 grid cases', f'{BRK}:{fj.lineno}')
 
 
 def check(rep: Report, repo: Optional[Repo] = None) -> None:
